@@ -292,6 +292,20 @@ def run_generated_edit(ctx, report, name, spec, kind, table, timeout_ms):
     report.add(ob)
 
 
+def dup_names_spec():
+    """two imports share module and field name (legal; they differ in signature): replacing the LATER one must remove
+    exactly that import entry"""
+    sp = Spec()
+    sp.types = [(['i32'], ['i32']), ([], [])]
+    sp.imports = [dict(module=S('env'), name=S('hook'), kind='func', type=0), dict(module=S('env'), name=S('other'), kind='func', type=1),
+                  dict(module=S('env'), name=S('hook'), kind='func', type=1)]
+    sp.funcs = [dict(type=1, ops=tagged_body('caller', 0, [OP('I32Const', value=sym('a', 'i32')), OP('Call', function_index=u32(0)), OP('Drop'), OP('Call', function_index=u32(1)), OP('Call', function_index=u32(2))]))]
+    sp.func_tags = ['caller']
+    sp.exports = [dict(name=S('c'), kind='Func', index=u32(3)), dict(name=S('h2'), kind='Func', index=u32(2))]
+    sp.gen_seed = 2          # run_generated_edit replaces imported function gen_seed % #imports = 2
+    return sp
+
+
 def run(tier, seed, only=None):
     report = common.Report('C18', tier, seed)
     ctx = common.Ctx()
@@ -309,6 +323,7 @@ def run(tier, seed, only=None):
     items = [('fixed', kind, None, kind) for kind in ('imp', 'exp', 'imp-wrong', 'exp-wrong')]
     for n, sp in gl:
         items += [('gen', n, sp, 'imp'), ('gen', n, sp, 'exp')]
+    items.append(('gen', 'duplicate-import-names', dup_names_spec(), 'imp'))
     items = [i for i in items if not only or i[1] in only]
     pc.run_parallel(ctx, report, job, items)
     report.bounds = {'generated': gen.bounds_text(tier, len(gl)) + ' x {replace_imported_func of a drawn imported function, replace_exported_func of the first exported local function} where the description has one; the expected result is computed by an index-remapping transform of the description (expected_after)', 'module': 'two imported functions (one called, listed in a table segment and exported), three local functions (caller, exported x, internal caller y of x)', 'replacement body': 'built by a harness closure through the real InstrSeqBuilder::{i32_const, drop, local_get}; constants symbolic'}
